@@ -147,6 +147,8 @@ def m_uri(v):
     if v is None:
         return ("ValueError",)
     f, g = v[1]
+    if isinstance(f, str):           # out_uri_s: Coq string literals
+        return ("ok", (f, g))
     return ("ok", (dec_str(f), dec_str(g)))
 
 
@@ -369,6 +371,8 @@ class Tally:
 
     def flush(self):
         self.ctx.count(self.n, self.keys, kind=self.kind)
+        if self.keys and len(self.ctx.samples) < 8:      # one concrete input per stream in the evidence
+            self.ctx.samples.append({"stream": self.kind, "input": self.keys[len(self.keys) // 2].split("|", 1)[1]})
 
 
 def check_region_string(ctx, tally, s, impl, model, fn="parse_region_string"):
@@ -661,7 +665,7 @@ def stream_uri(ctx, thorough):
     nmax = 7 if thorough else 6
     exprs, groups = [], []
     for n in range(0, nmax + 1):
-        exprs.append(f"map (fun s => out_uri (parse_cooler_uri s)) (strings_of_len {lit(alpha)} {n}%nat)")
+        exprs.append(f"map (fun s => out_uri_s (parse_cooler_uri s)) (strings_of_len {lit(alpha)} {n}%nat)")
         groups.append(["".join(t) for t in itertools.product(alpha, repeat=n)])
     extra = ["/path/to/my.mcool::/resolutions/1000", "/path/to/my.mcool::resolutions/1000", "my.cool", "my.cool::", "my.cool::/", "::/", "::", ":::",
              "::::", ":::::", "a:::b", "a::::b", "a::b::c", "a::b::", "::a::", "f.cool::a::b::c", "C:\\data\\x.cool::/g", "x.cool:://g", "x.cool::g/", "x.cool:: /g",
